@@ -24,7 +24,7 @@ LEVEL_NOTE = ("Reference = mc.refsim state-vector / branch simulation of the inp
 DESIGN_REF = "5.5 C33"
 RULE = "case = (circuit word, measurements, device, wires, shots, gradient method); non-trivial = accepted circuit whose preprocessing changed the tape"
 
-LETTERS = ["RX", "CNOT", "QFT3", "adjS", "powX", "ctrlRY", "SPmid", "Snap", "Barrier", "MCM", "Alloc", "Custom", "H1"]
+LETTERS = ["RX", "CNOT", "QFT3", "adjS", "powX", "ctrlRY", "SPmid", "Snap", "Barrier", "MCM", "Alloc", "AllocDirty", "Custom", "H1"]
 MEAS = ["Z0", "X0Z0", "Ham", "probs", "counts", "state"]
 DEVICES = ["default.qubit", "default.mixed", "reference.qubit", "default.clifford", "null.qubit", "default.tensor"]
 WIRES = ["none", "exact", "superset", "toofew"]
@@ -78,6 +78,9 @@ def _ops(word):
                 with qp.allocation.allocate(1, state="zero", restored=True) as w:
                     qp.CNOT([0, w[0]])
                     qp.CNOT([w[0], 1])
+                    qp.CNOT([0, w[0]])
+            elif l == "AllocDirty":  # scratch qubit handed back dirty: it must never be a wire the circuit still reads
+                with qp.allocation.allocate(1, state="zero", restored=False) as w:
                     qp.CNOT([0, w[0]])
             elif l == "Custom":
                 _custom()(wires=1)
@@ -216,7 +219,7 @@ def run(ctx):
             for dev in DEVICES:
                 if dev == "default.clifford" and any(l in ("RX", "QFT3", "powX", "ctrlRY", "SPmid") for l in w):
                     continue  # non-Clifford letters: covered by C70
-                if dev == "default.tensor" and (mname not in ("Z0", "Ham") or any(l in ("MCM", "Alloc", "Snap") for l in w)):
+                if dev == "default.tensor" and (mname not in ("Z0", "Ham") or any(l in ("MCM", "Alloc", "AllocDirty", "Snap") for l in w)):
                     continue
                 if ctx.quick:
                     k = (LETTERS.index(w[0]) + 3 * LETTERS.index(w[-1]) + 5 * MEAS.index(mname) + 7 * DEVICES.index(dev))
